@@ -321,13 +321,39 @@ pub fn decompress(
                     ))),
                 ))
             })? as usize;
+            // The announced size is allocated before decompression starts. An LZ4 block
+            // cannot expand by more than a factor of 255 (one extra match-length byte adds
+            // at most 255 bytes of output), so a larger announcement can only be malformed.
+            if uncomp_len > comp_body.len().saturating_mul(255) {
+                return Err(FrameBodyExtensionsParseError::Lz4DecompressError(Arc::new(
+                    LowLevelDeserializationError::IoError(Arc::new(std::io::Error::new(
+                        std::io::ErrorKind::InvalidData,
+                        "lz4 frame body announces a size that its compressed data cannot expand to",
+                    ))),
+                )));
+            }
             let uncomp_body = lz4_flex::decompress(comp_body, uncomp_len)
                 .map_err(|err| FrameBodyExtensionsParseError::Lz4DecompressError(Arc::new(err)))?;
             Ok(uncomp_body)
         }
-        Compression::Snappy => snap::raw::Decoder::new()
-            .decompress_vec(comp_body)
-            .map_err(|err| FrameBodyExtensionsParseError::SnapDecompressError(Arc::new(err))),
+        Compression::Snappy => {
+            // The announced size is allocated before decompression starts. The densest Snappy
+            // element (a copy with a 2-byte offset) turns 3 bytes into 64, so an announcement
+            // above 32x the compressed size can only be malformed.
+            let announced_len = snap::raw::decompress_len(comp_body)
+                .map_err(|err| FrameBodyExtensionsParseError::SnapDecompressError(Arc::new(err)))?;
+            if announced_len > comp_body.len().saturating_mul(32) {
+                return Err(FrameBodyExtensionsParseError::SnapDecompressError(Arc::new(
+                    LowLevelDeserializationError::IoError(Arc::new(std::io::Error::new(
+                        std::io::ErrorKind::InvalidData,
+                        "snappy frame body announces a size that its compressed data cannot expand to",
+                    ))),
+                )));
+            }
+            snap::raw::Decoder::new()
+                .decompress_vec(comp_body)
+                .map_err(|err| FrameBodyExtensionsParseError::SnapDecompressError(Arc::new(err)))
+        }
     }
 }
 
